@@ -55,6 +55,26 @@ func (m *C05) check(w *eng.World, s *snap.Snap, where string) {
 			w.Violation("C05", "token-supply-differs-from-backing", "%s: basket %s token supply %s but credits held %s x 10^precision = %s", where, b.BasketDenom, got.Num(), ref.RatString(tot), ref.RatString(want))
 		}
 	}
+	// the same invariants inside a transaction with little gas left (x/crisis MsgVerifyInvariant): running out of
+	// gas aborts the transaction, it must never turn into the verdict "broken"
+	if w.StepIdx%5 == 0 {
+		brokenAnyway := false
+		for _, ir := range w.C.RunInvariants() {
+			if ir.Route == "basket-supply" && ir.Broken {
+				brokenAnyway = true // judged below, with unlimited gas
+			}
+		}
+		for _, lim := range []uint64{3000, 20000, 90000} {
+			if brokenAnyway {
+				break
+			}
+			for _, ir := range w.C.RunInvariantsGas(lim) {
+				if ir.Route == "basket-supply" && ir.Broken {
+					w.Violation("C05", "registered-invariant-broken-under-gas-limit", "%s: with %d gas the registered invariant %s/%s reports: %s (panic=%v)", where, lim, ir.Module, ir.Route, ir.Msg, ir.Panic)
+				}
+			}
+		}
+	}
 	for _, ir := range w.C.RunInvariants() {
 		if ir.Route == "basket-supply" && ir.Broken {
 			key := "registered-invariant-broken"
